@@ -548,10 +548,19 @@ def corr_whole(ctx, form, holes, survey):
     if not qs:
         return
     res = ctx.driver.call("refs.model", tree=tree, queries=qs)
+    # `inPredicate` is an input of the model.  Where the code's regex verdict (first `]` ends the predicate) and the
+    # bracket-depth reading differ — finding F44 — a repaired `_in_secondary_instance_predicate` yields the model
+    # value at the other input; the oracle, not the correspondence, judges which one the property demands.
+    alt = [(h, dict(q, ip=h["flags"]["in_pred"])) for h, q in zip(hs, qs)
+           if h["cell"] not in TEXT_CELLS and h["cell"] != "choice_filter" and q["ip"] != h["flags"]["in_pred"]]
+    altres = {}
+    if alt:
+        for (h, _q), m in zip(alt, ctx.driver.call("refs.model", tree=tree, queries=[q for _h, q in alt])):
+            altres[id(h)] = (m.get("text") or "").strip() if m["out"] == "ok" else m["out"]
     for h, q, m in zip(hs, qs, res):
         got = h["hole"]
         want = (m.get("text") or "").strip() if m["out"] == "ok" else m["out"]
-        if got != want:
+        if got != want and altres.get(id(h)) != got:
             ctx.mismatch(f"hole of {h['cell']}", {"form": form, "query": q}, got, want)
 
 
@@ -591,6 +600,8 @@ def corr_direct(ctx, form, survey, rng, npairs):
                     msg = str(e)
                     out = {"out": "unknown" if "no survey element" in msg else "ambiguous" if "multiple survey elements" in msg else "error:" + msg,
                            "name": t.name if f"${{{'last-saved#' if fl.get('ls') else ''}{t.name}}}" in msg and f"'{t.name}'" in msg else None}
+                except Exception as e:  # noqa: BLE001 - a crash of the implementation is an observation, not harness trouble
+                    out = {"out": "crash:" + type(e).__name__}
                 mq.append(q)
                 mimpl.append(out)
     fres = ctx.driver.call("refs.funcs", tree=tree, pairs=fq)
